@@ -41,14 +41,17 @@ package validator
 //@   requires implies(isBody(node) && nodeSchema != nil, typeis(nodeSchema, "*schema.BodySchema") && as(nodeSchema, "*schema.BodySchema") != nil)
 //@   ensures [C15] implies(!(isBody(node) && nodeSchema != nil), len(diags) == 0)
 //@   loop 1 iter [C15] len(diags) == old(len(diags)) + ite(attr.IsRequired && !haskey(body.Attributes, name), 1, 0)
+//@   ensures [C15,name:every-declared-attribute-is-examined] implies(isBody(node) && nodeSchema != nil && as(nodeSchema, "*schema.BodySchema").Attributes != nil, pastloop(1))
 //@   loop 1 iter [C15] implies(len(diags) > old(len(diags)), diags[len(diags)-1].Severity == hcl.DiagError && *diags[len(diags)-1].Subject == body.SrcRange)
 //@ contract (validator.MaxBlocks).Visit (v, ctx, node, nodeSchema) (ctx2, diags)
 //@   requires implies(isBody(node) && nodeSchema != nil, typeis(nodeSchema, "*schema.BodySchema") && as(nodeSchema, "*schema.BodySchema") != nil)
 //@   ensures [C15] implies(!(isBody(node) && nodeSchema != nil), len(diags) == 0)
 //@   loop 1 iter [C15] len(diags) == old(len(diags)) + ite(blockSchema.MaxItems != 0 && haskey(schemacontext.FoundBlocks(ctx), name) && schemacontext.FoundBlocks(ctx)[name] > blockSchema.MaxItems, 1, 0)
 //@   loop 1 iter [C15] implies(len(diags) > old(len(diags)), diags[len(diags)-1].Severity == hcl.DiagError && *diags[len(diags)-1].Subject == node.Range())
+//@   ensures [C15,name:every-declared-block-type-is-examined] implies(isBody(node) && nodeSchema != nil, pastloop(1))
 //@ contract (validator.MinBlocks).Visit (v, ctx, node, nodeSchema) (ctx2, diags)
 //@   requires implies(isBody(node) && nodeSchema != nil, typeis(nodeSchema, "*schema.BodySchema") && as(nodeSchema, "*schema.BodySchema") != nil)
 //@   ensures [C15] implies(!(isBody(node) && nodeSchema != nil), len(diags) == 0)
 //@   loop 1 iter [C15] len(diags) == old(len(diags)) + ite(blockSchema.MinItems != 0 && (!haskey(schemacontext.FoundBlocks(ctx), name) || schemacontext.FoundBlocks(ctx)[name] < blockSchema.MinItems) && !(bodySchema.Extensions != nil && bodySchema.Extensions.DynamicBlocks && haskey(schemacontext.DynamicBlocks(ctx), name) && schemacontext.DynamicBlocks(ctx)[name] > 0), 1, 0)
 //@   loop 1 iter [C15] implies(len(diags) > old(len(diags)), diags[len(diags)-1].Severity == hcl.DiagError && *diags[len(diags)-1].Subject == node.Range())
+//@   ensures [C15,name:every-declared-block-type-is-examined] implies(isBody(node) && nodeSchema != nil, pastloop(1))
